@@ -55,11 +55,32 @@ func propSuites(t *rapid.T) {
 		err  error
 	)
 	dOrig, mOrig := append([]byte(nil), d...), append([]byte(nil), msg...)
+	// Callers slice their inputs out of larger buffers.  Lay the arguments out in one backing array
+	// (DST directly followed by the message, followed by a canary, or the other way round) so that each
+	// slice has spare capacity that belongs to somebody else: an append() or an in-place edit inside
+	// the library then lands in the neighbour.
+	layout := rapid.SampledFrom([]string{"separate", "dst|msg|canary", "msg|dst|canary"}).Draw(t, "layout")
+	canary := []byte{0xc5, 0x5c, 0xa7, 0x7a, 0x11, 0xee, 0x42, 0x24}
+	var backing []byte
+	switch layout {
+	case "dst|msg|canary":
+		backing = append(append(append([]byte(nil), dOrig...), mOrig...), canary...)
+		d, msg = backing[:len(dOrig)], backing[len(dOrig):len(dOrig)+len(mOrig)]
+	case "msg|dst|canary":
+		backing = append(append(append([]byte(nil), mOrig...), dOrig...), canary...)
+		msg, d = backing[:len(mOrig)], backing[len(mOrig):len(mOrig)+len(dOrig)]
+	}
+	backingOrig := append([]byte(nil), backing...)
+	defer func() {
+		if !bytes.Equal(backing, backingOrig) {
+			t.Fatalf("the library wrote outside / inside its input slices (layout %s): buffer %x became %x", layout, backingOrig, backing)
+		}
+	}()
 	if ro {
-		want, ok = ref.HashToCurveRO(msg, d)
+		want, ok = ref.HashToCurveRO(mOrig, dOrig)
 		got, err = h2c.Secp256k1_XMD_SHA256_SSWU_RO(d, msg)
 	} else {
-		want, ok = ref.EncodeToCurveNU(msg, d)
+		want, ok = ref.EncodeToCurveNU(mOrig, dOrig)
 		got, err = h2c.Secp256k1_XMD_SHA256_SSWU_NU(d, msg)
 	}
 	if !ok {
@@ -103,13 +124,13 @@ func TestC15_EmptyDST(t *testing.T) {
 }
 
 var (
-	inv11      = ref.Inv0(big.NewInt(11), ref.P)
+	inv11        = ref.Inv0(big.NewInt(11), ref.P)
 	sqrtInv11, _ = ref.SqrtP(inv11) // u with Z*u^2 = -1: the SWU denominator vanishes
 )
 
 // chosenU draws a field element aimed at the exceptional / branch cases.
 func chosenU(t *rapid.T) (*big.Int, string) {
-	kind := rapid.SampledFrom([]string{"0", "1", "p-1", "+sqrt(1/11)", "-sqrt(1/11)", "small", "drawn", "drawn", "iso-kernel"}).Draw(t, "ukind")
+	kind := rapid.SampledFrom([]string{"0", "1", "p-1", "+sqrt(1/11)", "-sqrt(1/11)", "small", "drawn", "drawn", "iso-kernel", "limb-edge", "limb-edge"}).Draw(t, "ukind")
 	switch kind {
 	case "0":
 		return big.NewInt(0), kind
@@ -123,6 +144,8 @@ func chosenU(t *rapid.T) (*big.Int, string) {
 		return ref.NegM(sqrtInv11, ref.P), kind
 	case "small":
 		return gen.Small(t, "u"), kind
+	case "limb-edge":
+		return gen.LimbEdge(t, ref.P, "u"), kind
 	case "iso-kernel":
 		// a u whose SWU image has the x' that kills the isogeny denominators is not constructible
 		// by formula here; approximate by searching a few small u (classified by the model below).
@@ -133,14 +156,14 @@ func chosenU(t *rapid.T) (*big.Int, string) {
 
 func propUniformBytes(t *rapid.T) {
 	u, kind := chosenU(t)
-	n := rapid.IntRange(32, 64).Draw(t, "len")
+	n := gen.WideLen(t, "len")
 	// encode u + j*p in n bytes
 	maxv := new(big.Int).Lsh(big.NewInt(1), uint(8*n))
 	j := new(big.Int)
 	if rapid.Bool().Draw(t, "alias") {
-		jmax := new(big.Int).Div(new(big.Int).Sub(maxv, u), ref.P)
+		jmax := new(big.Int).Div(new(big.Int).Sub(new(big.Int).Sub(maxv, big.NewInt(1)), u), ref.P)
 		if jmax.Sign() > 0 {
-			switch rapid.IntRange(0, 2).Draw(t, "jsel") {
+			switch rapid.IntRange(0, 4).Draw(t, "jsel") {
 			case 0:
 				j.SetInt64(1)
 			case 1:
@@ -148,6 +171,8 @@ func propUniformBytes(t *rapid.T) {
 				if j.Sign() < 0 {
 					j.SetInt64(0)
 				}
+			case 2, 3:
+				j.Set(jmax) // the largest alias that fits: every carry of the wide reduction
 			default:
 				j.Mod(gen.Uniform256(t, "j"), jmax)
 			}
